@@ -49,20 +49,20 @@ func (e *Env) Exec(req *proto.Request) harness.Outcome {
 // ---------------------------------------------------------------------------------------------
 
 type Stats struct {
-	mu          sync.Mutex
-	Property    string           `json:"property"`
-	Evaluations int              `json:"evaluations"`
-	NTHashes    []uint64         `json:"nt_hashes"`
-	Classes     map[string]int   `json:"classes"`
-	Samples     []json.RawMessage `json:"samples"`
-	Queries     int              `json:"queries"`
-	DontCare    int              `json:"dont_care"`
-	Excluded    int              `json:"excluded_by_known_finding"`
-	Unconfirmed int              `json:"unconfirmed"`
-	Spawned     int              `json:"children_spawned"`
-	Violations  int              `json:"violations"`
-	Inconclusive []string        `json:"inconclusive,omitempty"`
-	ntSet       map[uint64]struct{}
+	mu           sync.Mutex
+	Property     string            `json:"property"`
+	Evaluations  int               `json:"evaluations"`
+	NTHashes     []uint64          `json:"nt_hashes"`
+	Classes      map[string]int    `json:"classes"`
+	Samples      []json.RawMessage `json:"samples"`
+	Queries      int               `json:"queries"`
+	DontCare     int               `json:"dont_care"`
+	Excluded     int               `json:"excluded_by_known_finding"`
+	Unconfirmed  int               `json:"unconfirmed"`
+	Spawned      int               `json:"children_spawned"`
+	Violations   int               `json:"violations"`
+	Inconclusive []string          `json:"inconclusive,omitempty"`
+	ntSet        map[uint64]struct{}
 }
 
 var stats = &Stats{Classes: map[string]int{}, ntSet: map[uint64]struct{}{}}
